@@ -145,6 +145,8 @@ class Engine:
         self.frame_writes = None
         self.store_eqs = []
         self.maxabs_reg = None
+        self.wit_reg = None
+        self.quantified = False
         self.taint = set()          # names of z3 constants standing for a symbolic weight (C16 non-interference)
         self.taint_hits = []
         self._taint_cache = {}
@@ -202,10 +204,89 @@ class Engine:
     def _check(self, *extra, portfolio=False):
         self._sync()
         t0 = time.time()
+        if portfolio and getattr(self, "quantified", False):
+            # queries with quantified hypotheses (forall_key invariants, the enumeration theory): the incremental
+            # solver either answers at once or spends its whole budget; so: a short incremental attempt, then the
+            # arithmetic abstraction (which only forgets facts, so `unsat` carries over - the instances the proofs
+            # need are stated explicitly), then the full portfolio below
+            try:
+                self.solver.push()
+                for e in extra:
+                    self.solver.add(e)
+                self.solver.set("timeout", 1500)
+                r0 = self.solver.check()
+                m0 = None
+                if r0 == z3.sat:
+                    try:
+                        m0 = self.solver.model()
+                    except z3.Z3Exception:
+                        m0 = None
+                self.solver.set("timeout", 20000)
+                self.solver.pop()
+                if r0 == z3.unsat or (r0 == z3.sat and self._model_ok(m0, extra)):
+                    self.last_backend = "z3-" + z3.get_version_string()
+                    self.stats["solver_calls"] += 1
+                    self.stats["solver_time"] += time.time() - t0
+                    return r0, m0
+                fs = _arith_abstraction(list(self.solver.assertions()) + list(extra))
+                sa = z3.Solver()
+                sa.set("timeout", 15000)
+                sa.set("rlimit", 20000000)
+                for f_ in fs:
+                    sa.add(f_)
+                if sa.check() == z3.unsat:
+                    self.last_backend = "z3-%s(arith-abstraction)" % z3.get_version_string()
+                    self.stats["solver_calls"] += 1
+                    self.stats["solver_time"] += time.time() - t0
+                    return z3.unsat, None
+            except z3.Z3Exception:
+                pass
+        if portfolio and getattr(self, "quantified", False) and os.environ.get("QVC_ONESHOT_FIRST"):
+            # queries with quantified hypotheses (forall_key invariants, the enumeration theory): the incremental
+            # solver is slow and erratic on them while a fresh one-shot solver (full tactic, MBQI) answers at once
+            try:
+                s1 = z3.Solver()
+                s1.set("rlimit", 40_000_000)
+                s1.set("timeout", 60000)
+                for a_ in self.solver.assertions():
+                    s1.add(a_)
+                for e in extra:
+                    s1.add(e)
+                if os.environ.get("QVC_DUMP_DIR"):
+                    self._ndump = getattr(self, "_ndump", 0) + 1
+                    with open(os.path.join(os.environ["QVC_DUMP_DIR"], "o%d_%d.smt2" % (os.getpid(), self._ndump)), "w") as fdump:
+                        fdump.write(s1.to_smt2())
+                tq0 = time.time()
+                r1 = s1.check()
+                if os.environ.get("QVC_DUMP_DIR"):
+                    print("one-shot", self._ndump, r1, round(time.time() - tq0, 2))
+                if r1 == z3.unsat:
+                    self.last_backend = "z3-%s(one-shot)" % z3.get_version_string()
+                    self.stats["solver_calls"] += 1
+                    self.stats["solver_time"] += time.time() - t0
+                    return r1, None
+                if r1 == z3.sat:
+                    m1 = s1.model()
+                    if self._model_ok(m1, extra):
+                        self.last_backend = "z3-%s(one-shot)" % z3.get_version_string()
+                        self.stats["solver_calls"] += 1
+                        self.stats["solver_time"] += time.time() - t0
+                        return r1, m1
+            except z3.Z3Exception:
+                pass
         self.solver.push()
         for e in extra:
             self.solver.add(e)
+        quick = (not portfolio) and getattr(self, "quantified", False)
+        if quick:
+            # feasibility / canary queries under quantified hypotheses: a model may be out of the solver's reach;
+            # `unknown` is read as "feasible" by every caller, so a short budget loses nothing but time
+            self.solver.set("timeout", 800)
         r = self.solver.check()
+        if quick:
+            self.solver.set("timeout", 20000)
+        if os.environ.get("QVC_DUMP_DIR"):
+            print("incremental", "portfolio" if portfolio else "plain", r, round(time.time() - t0, 2))
         model = None
         if r == z3.sat:
             try:
@@ -256,7 +337,11 @@ class Engine:
             sa.set("rlimit", 20000000)
             for f_ in fs:
                 sa.add(f_)
-            if sa.check() == z3.unsat:
+            ta0 = time.time()
+            ra = sa.check()
+            if os.environ.get("QVC_DUMP_DIR"):
+                print("arith-abstraction", ra, round(time.time() - ta0, 2))
+            if ra == z3.unsat:
                 self.last_backend = "z3-%s(arith-abstraction)" % z3.get_version_string()
                 return z3.unsat, None
         except z3.Z3Exception:
@@ -269,6 +354,10 @@ class Engine:
         import subprocess
         import tempfile
         text = s.to_smt2()
+        if os.environ.get("QVC_DUMP_DIR"):
+            self._ndump = getattr(self, "_ndump", 0) + 1
+            with open(os.path.join(os.environ["QVC_DUMP_DIR"], "q%d_%d.smt2" % (os.getpid(), self._ndump)), "w") as fdump:
+                fdump.write(text)
         import shutil
         z3new = shutil.which("z3-new") or "/usr/bin/z3"
         # resource limits (deterministic) decide; the wall-clock limits are only a safety net
@@ -324,6 +413,31 @@ class Engine:
         self.assume(cond if d else z3.Not(cond))
         return d
 
+    def _skolemize(self, g):
+        """replace universally quantified sub-goals in positive position by their body at fresh constants (proving
+        the instance at an arbitrary fresh key proves the quantified goal); the fresh keys are registered as witness
+        keys, so that every quantified hypothesis is instantiated at them explicitly"""
+        if z3.is_quantifier(g) and g.is_forall():
+            consts = []
+            for i in range(g.num_vars()):
+                self.nfresh += 1
+                c = z3.Const("sk_%s!%d" % (g.var_name(i), self.nfresh), g.var_sort(i))
+                consts.append(c)
+            body = z3.substitute_vars(g.body(), *reversed(consts))
+            for c in consts:
+                if c.sort() == T.Key:
+                    self.facts.key(c)
+                    FO.maxabs_note(self, T.Key, c)
+            return self._skolemize(body)
+        if z3.is_and(g) or z3.is_or(g):
+            ch = [self._skolemize(c) for c in g.children()]
+            return z3.And(*ch) if z3.is_and(g) else z3.Or(*ch)
+        if z3.is_implies(g):
+            return z3.Implies(g.arg(0), self._skolemize(g.arg(1)))
+        if z3.is_app(g) and g.decl().kind() == z3.Z3_OP_ITE and g.sort() == z3.BoolSort():
+            return z3.If(g.arg(0), self._skolemize(g.arg(1)), self._skolemize(g.arg(2)))
+        return g
+
     def oblige(self, kind, goal, note=""):
         """prove goal under the current path condition; record the result"""
         name = "%s#p%d" % (kind, self.stats["paths"])
@@ -333,7 +447,8 @@ class Engine:
                                  "backend": "trivial", "model": None})
             return st == "discharged"
         t0 = time.time()
-        r, model = self._check(z3.Not(goal), portfolio=True)
+        pgoal = self._skolemize(goal) if getattr(self, "quantified", False) else goal
+        r, model = self._check(z3.Not(pgoal), portfolio=True)
         dt = time.time() - t0
         if r == z3.unsat:
             st = "discharged"
@@ -1571,6 +1686,7 @@ class Engine:
                 self.nfresh += 1
                 V = z3.Const("visited!%d" % self.nfresh, EN.SetSort)
                 tq = z3.Const("tq!%d" % self.nfresh, EN.Asg)
+                self.quantified = True
                 self.assume(z3.ForAll([tq], z3.Implies(z3.Select(V, tq), coll.member(tq))))
                 vis = SV(V, "asgset")
                 fr.locals[gname] = vis
